@@ -176,10 +176,14 @@ def _stmt(st, live, out):
                             p.env[a.id] = b
                         elif isinstance(a, (ast.Attribute, ast.Subscript)):
                             p.stores.append((subst(a, p.env), b))
-                elif isinstance(t, (ast.Tuple, ast.List)) and all(isinstance(a, ast.Name) for a in t.elts):
+                elif isinstance(t, (ast.Tuple, ast.List)) and all(isinstance(a, (ast.Name, ast.Attribute, ast.Subscript)) for a in t.elts):
                     # unpacking of an opaque value: component i
                     for i, a in enumerate(t.elts):
-                        p.env[a.id] = ast.Subscript(value=_fcopy(v), slice=ast.Constant(value=i), ctx=ast.Load())
+                        comp = ast.Subscript(value=_fcopy(v), slice=ast.Constant(value=i), ctx=ast.Load())
+                        if isinstance(a, ast.Name):
+                            p.env[a.id] = comp
+                        else:
+                            p.stores.append((subst(a, p.env), comp))
                 else:
                     if isinstance(t, (ast.Attribute, ast.Subscript)):
                         p.stores.append((subst(t, p.env), v))
@@ -230,9 +234,12 @@ def _stmt(st, live, out):
         return _block(st.body, t_live, out) + _block(st.orelse, f_live, out)
     if isinstance(st, ast.Try):
         res = []
-        # normal execution of the body
+        # normal execution of the body (followed by the else block, which the handlers' paths do not run)
         body_live = [p.copy() for p in live]
-        res.extend(_block(st.body, body_live, out))
+        normal = _block(st.body, body_live, out)
+        if st.orelse:
+            normal = _block(st.orelse, normal, out)
+        res.extend(normal)
         # each handler: entered from the state at the beginning of the try (assignments of the body are not trusted)
         for h in st.handlers:
             hl = []
@@ -242,11 +249,16 @@ def _stmt(st, live, out):
                 q.conds.append((ast.Name(id='__exception__{}'.format(getattr(h.type, 'id', getattr(h.type, 'attr', '*')) if h.type is not None else '*'), ctx=ast.Load()), True))
                 hl.append(q)
             res.extend(_block(h.body, hl, out))
-        if st.orelse:
-            res = _block(st.orelse, res, out)
         if st.finalbody:
             res = _block(st.finalbody, res, out)
         return res
+    if isinstance(st, ast.For) and isinstance(st.iter, ast.Name) and live and not st.orelse and all(isinstance(p.env.get(st.iter.id), (ast.Tuple, ast.List)) for p in live) \
+            and len({ast.dump(p.env[st.iter.id]) for p in live}) == 1 and 0 < len(live[0].env[st.iter.id].elts) <= 4 \
+            and not any(isinstance(x, (ast.Break, ast.Continue)) for b in st.body for x in ast.walk(b)):
+        # a loop over a local bound to a written-out list: its unrolling
+        for e in live[0].env[st.iter.id].elts:
+            live = _block([ast.copy_location(ast.Assign(targets=[st.target], value=e), st)] + list(st.body), live, out)
+        return live
     if isinstance(st, ast.For) and isinstance(st.iter, (ast.Tuple, ast.List)) and 0 < len(st.iter.elts) <= 4 and isinstance(st.target, ast.Name) and not st.orelse \
             and not any(isinstance(x, (ast.Break, ast.Continue, ast.Starred)) for b in st.body + [st.iter] for x in ast.walk(b)):
         # a loop over a written-out tuple is its unrolling
